@@ -5,6 +5,7 @@ Only property theorems and non-vacuity examples live here; helper lemmas are in 
 import JaxVerif.Spec.Array
 import JaxVerif.Lemmas.Array
 import JaxVerif.Generated.CheckCode
+import JaxVerif.Generated.Rollback
 
 namespace JV
 
@@ -148,6 +149,22 @@ theorem C01_source_variadic (prevB : Bool) (prev : List Nat) (curB : Bool) (new 
 /-- the first use of a multi-axis name stores `(broadcastable, shape)` — as `vstep none` does -/
 theorem C01_source_variadic_first (b : Bool) (n : List Nat) :
     Generated.variadicFirstStoresCurNew = true ∧ vstep none b n = some (b, n) := ⟨by decide, rfl⟩
+
+/-- **`__instancecheck_str__` as the source orders its stages today is the model's `instancecheck`**
+    (with the exception class its handler is read to catch): transparency switch, type test,
+    flatten-mode accept, dtype name and test, snapshot, shape walk with rollback, final rollback -/
+theorem C01_source_stages (fl : Bool) (tp : TreePath) (a : Ann) (o : ArrObj) (m : Memo) :
+    runStages ((Generated.arrayCatch).getD .exceptionOnly) fl tp a o m Generated.instancecheckStages {} =
+      some (instancecheck ((Generated.arrayCatch).getD .exceptionOnly) fl tp a o m) := by
+  generalize (Generated.arrayCatch).getD .exceptionOnly = c
+  cases ht : a.transparent <;> cases hi : o.isInst <;> cases fl <;> cases hd : a.dtypes.accepts o.dtype <;>
+    simp only [Generated.instancecheckStages, runStages, instancecheck, ht, hi, hd,
+      Bool.not_true, Bool.not_false, Bool.false_eq_true, if_true, if_false] <;>
+    (cases checkShape tp m.args a.shape o.shape m.single m.variadic with
+     | ok r => obtain ⟨σ, ν⟩ := r; rfl
+     | fail => rfl
+     | annErr => rfl
+     | exc e l => obtain ⟨σ, ν⟩ := l; rfl)
 
 /-! non-vacuity: concrete states meeting the hypotheses -/
 
